@@ -168,6 +168,9 @@ def run(ctx):
             if not same:
                 r2 = {"status": "rows-differ", "detail": "", "sql": a["sql"], "names": names}
                 fid = relcheck.classify(type("X", (), {"prql": prql, "columns": c.columns})(), r2)
+                if fid is None and kind in ("let-prefix", "into") and re.search(r"OVER \((?:PARTITION BY [^()]*)?\)", a["sql"]) and \
+                        re.search(r"OVER \([^()]*ORDER BY", r["sql"]) and "sort" in prql:
+                    fid = "window-order-lost-across-let"
                 ctx.oracle_failure(fid, f"{kind}: result differs from the base program's",
                                    {"kind": kind, "base": c.prql, "rewritten": prql, "base_sql": r["sql"], "sql": a["sql"], "db": c.db,
                                     "schema": c.schema_list, "base_rows": r["rows"], "rows": rows, "compared_as": mode},
